@@ -122,6 +122,16 @@ if prop == 'C11':
                     d_ = parse(src + '\n'); d_['x'].value = 9; got2 = ' '.join(d_.rebuild().split())
                 except Exception as ex: got2 = 'EXC:' + type(ex).__name__
                 if got2 != want: viol.append({'doc': src, 'path': ['x'], 'what': 'assignment through the identifier fetched with doc[key] rewrote the wrong binding', 'got': got2, 'expected': want})
+# ---- an inherit inside a call argument (tenth round): the defining binding is the one Nix's scoping names — the enclosing rec set's, not a let binding it shadows
+if prop == 'C11':
+    for tpl, pth in [('let version = "0.9"; in mk rec { pname = "demo"; version = V; src = fetch { inherit pname version; hash = ""; }; }', 'src.version'),
+                     ('let version = V; in mk { pname = "demo"; src = fetch { inherit pname version; }; }', 'src.version'),
+                     ('let pname = "p"; in mk rec { pname = V; version = "1"; src = fetch { inherit pname version; }; }', 'src.pname')]:
+        for old_, new_ in [('"1.0"', '"2.0"'), ('7', '8')]:
+            src_ = tpl.replace('V', old_); want = tpl.replace('V', new_); count('inherit-in-call-argument')
+            try: got = ' '.join(set_value(parse(src_ + '\n'), pth, new_).split())
+            except Exception as ex: got = 'EXC:' + type(ex).__name__
+            if got != want: viol.append({'doc': src_, 'path': pth.split('.'), 'what': 'set through an inherit inside a call argument rewrote the wrong binding', 'got': got, 'expected': want})
 # ---- sequences of edits through references on ONE document object (third round of seeds): every step must have the effect
 # it has on a fresh parse of the text the previous step printed — the defining binding is looked up anew each time
 if prop == 'C11':
